@@ -231,16 +231,90 @@ POTATO_LINE = ("project=c08k WeatherFolder=historical soilId=T4 fcode=109_120 pl
                "poligonID=29872 ETpot=3 EndDate=1231%d resultfolder=R/c08_potato")
 
 
+# configuration sweep: waterlib.SWEEP_* (one key away from the projects' own configuration, shared with C01/C02/C06/C07) plus
+# the keys Evatra / stomat / the ET0 methods read that it does not vary: ETpot 1..5 on weather that feeds the method,
+# CO2method x CO2StomataInfluence x CO2concentration, KcFactorBareSoil, CoastDistance, Latitude (polar circle, equator) and
+# Altitude, groundwater in the root zone with irrigation, reference ET with sentinels and negative values (layout 0)
+_A = waterlib._A
+_H = HAUDE_LINE[0] % ("075", 10001)
+_M = "project=MUN WeatherFolder=%s soilId=001 fcode=NEU plotNr=00001 Altitude=55 Latitude=%s poligonID=MUN parameter=./parameter StartYear=2009"
+C08_SWEEP_QUICK = (
+    [(_A + " " + o, "EN") for o in ("ETpot=2 CoastDistance=10", "ETpot=3 CO2StomataInfluence=0", "ETpot=3 CO2method=1 CO2concentration=700",
+                                     "ETpot=4 KcFactorBareSoil=2.0", "ETpot=3 KcFactorBareSoil=1.2 Altitude=2500 Latitude=0.5",
+                                     "ETpot=4 Latitude=69.5")]
+    + [(_H + " KcFactorBareSoil=2.0", "EN"),
+       ("project=ex1 WeatherFolder=historical soilId=160 fcode=109_120 plotNr=10002 Altitude=73 Latitude=52.6728 poligonID=29873 "
+        "ETpot=4 AutoIrrigation=1", "EN")]
+    + [((_M % ("MUN", "69.5")) + " ETpot=3", "DE"), ((_M % ("MUN", "0.5")) + " ETpot=4 KcFactorBareSoil=1.2", "DE"),
+       ((_M % ("MUNx", "54.00")) + " ETpot=5", "DE"), ((_M % ("MUNx", "-66")) + " ETpot=5 KcFactorBareSoil=2.0", "DE")])
+C08_SWEEP_MORE = (
+    [(_A + " " + o, "EN") for o in ("ETpot=2 KcFactorBareSoil=0.4 CoastDistance=200", "ETpot=3 CO2method=2 CO2concentration=280",
+                                     "ETpot=3 CO2method=3 CO2StomataInfluence=0", "ETpot=4 Altitude=3500", "ETpot=3 Latitude=-60")]
+    + [((_M % ("MUN", "-69.5")) + " ETpot=2", "DE"), ((_M % ("MUN", "80")) + " ETpot=4", "DE"),
+       ((_M % ("MUNx", "54.00")) + " ETpot=5 AutoIrrigation=1", "DE")])
+
+
+def _mun_gaps(ex, seed):
+    """weather folder MUNx = MUN with reference-ET sentinels (-99, the configured none value) and negative values away from
+    the first and last days of a year (layout 0: the only layout that carries an ET0 column)"""
+    import random, shutil
+    src, dst = os.path.join(ex, "weather", "MUN"), os.path.join(ex, "weather", "MUNx")
+    if os.path.isdir(dst):
+        return
+    shutil.copytree(src, dst)
+    rnd = random.Random(seed + 77)
+    for fn in sorted(os.listdir(dst)):
+        p = os.path.join(dst, fn)
+        rows = open(p, errors="replace").read().split("\n")
+        for i in range(8, len(rows) - 8):
+            t = rows[i].split(";")
+            if len(t) < 11:
+                continue
+            u = rnd.random()
+            if u < 0.03:
+                t[3] = "-99"
+            elif u < 0.05:
+                t[3] = "-1.2"
+            rows[i] = ";".join(t)
+        open(p, "w").write("\n".join(rows))
+
+
+def _sweep_lines(ctx):
+    lines = list(waterlib.SWEEP_QUICK) + list(C08_SWEEP_QUICK)
+    if ctx.thorough:
+        lines += list(waterlib.SWEEP_MORE) + list(C08_SWEEP_MORE)
+    out = []
+    for i, (ln, fmt) in enumerate(lines):
+        if "project=MUN" in ln:
+            end = "3112%d" % (2012 if ctx.thorough else 2010)
+        else:
+            end = ("1231%d" if fmt == "EN" else "3112%d") % (1984 if ctx.thorough else 1981)
+        out.append("%s EndDate=%s resultfolder=R/c08_s%d" % (ln, end, i))
+    return out
+
+
+SWEEP_FIRST = 100
+
+
 def _run(ctx):
     ex = waterlib.prepare_examples(ctx)
     _potato_project(ex)
+    _mun_gaps(ex, ctx.seed)
     lf = os.path.join(ctx.work, "c08_lines.txt")
     with open(lf, "w") as f:
         f.write("\n".join(_lines(ctx) + [POTATO_LINE % (1990 if ctx.thorough else 1984)]) + "\n")
     n = 20000 if ctx.thorough else 300
     every = 6 if ctx.thorough else 12
-    return waterlib.run_harness(ctx, "c08", ["-seed", str(ctx.seed), "-synth", str(n), "-work", ex, "-lines", lf,
-                                              "-every", str(every)])
+    rc, rows, orc, other, err = waterlib.run_harness(ctx, "c08", ["-seed", str(ctx.seed), "-synth", str(n), "-work", ex, "-lines", lf,
+                                                                  "-every", str(every)])
+    sf = os.path.join(ctx.work, "c08_sweep_lines.txt")
+    with open(sf, "w") as f:
+        f.write("\n".join(_sweep_lines(ctx)) + "\n")
+    rc2, rows2, orc2, other2, err2 = waterlib.run_harness(ctx, "c08", ["-seed", str(ctx.seed + 1), "-synth", "0", "-work", ex, "-lines", sf,
+                                                                       "-every", "60" if not ctx.thorough else "40",
+                                                                       "-first-line", str(SWEEP_FIRST)])
+    rows2 = [x for x in rows2 if x["k"] != "et0consts"]
+    return rc or rc2, rows + rows2, orc + orc2, other + other2, err + err2
 
 
 def correspond(ctx):
@@ -303,6 +377,14 @@ def correspond(ctx):
             seen.add((i["verdu"], i["elai"], tuple(i["wg0"]), i["crop"]))
     c.nontrivial = len(seen)
     ctx.extra["traced_runs"] = len(runs)
+    sw = [r_ for r_ in runs if r_["line"] >= SWEEP_FIRST]
+    ctx.extra["configuration_sweep"] = ("%d short runs with one or two keys away from the projects' own configuration (waterlib.SWEEP_* "
+                                        "+ C08_SWEEP_*: ETpot 1-5, CO2method x CO2StomataInfluence x CO2concentration, KcFactorBareSoil "
+                                        "0.4/1.2/2.0, CoastDistance, Latitude polar/equator, Altitude, groundwater in the root zone with "
+                                        "irrigation, reference ET with sentinels and negative values): %d days, %d crop days, %d days with "
+                                        "a negative reference ET, every day judged by the same oracles, sampled days in the bit-exact tie"
+                                        % (len(sw), sum(r_["days"] for r_ in sw), sum(r_["crop_days"] for r_ in sw),
+                                           sum(r_.get("negative_reference_et_days", 0) for r_ in sw)))
     ctx.extra["traced_days"] = sum(r_["days"] for r_ in runs)
     ctx.extra["traced_days_replayed_and_checked"] = sum(r_["replayed"] for r_ in runs)
     ctx.extra["traced_crop_days"] = sum(r_["crop_days"] for r_ in runs)
